@@ -347,9 +347,19 @@ def compare(res, what, inp, r_, m_, unordered=False):
         res.skipped += 1
         res.count(f"{what}:model-unsupported")
         return None
+    # an input that holds a set is iterated in hash order: sequence results built from it have no defined order
+    unordered = unordered or _val_has_set(inp.get("val"))
     if same(r_, m_, unordered=unordered):
         res.count(f"{what}:agree:" + ("ok" if "ok" in r_ else r_["err"]))
         return True
     res.count(f"{what}:DISAGREE")
     res.disagreements.append({"what": what, "input": inp, "real": {k: r_[k] for k in r_ if k in ("ok", "err", "msg")}, "model": m_})
+    return False
+
+
+def _val_has_set(vj):
+    if isinstance(vj, list):
+        if vj and vj[0] in ("s", "fs") and len(vj) == 2 and isinstance(vj[1], list) and len(vj[1]) > 1:
+            return True
+        return any(_val_has_set(x) for x in vj)
     return False
